@@ -278,14 +278,34 @@ func parseOp(op string) (level string, outs []string, order []int, ok bool) {
 	return
 }
 
+// runOne runs one scripted write. With an owner that never answers the write ends by its
+// timeout, which is kept short; if the machine was so slow that the scripted answers could not
+// be released well before that timeout the run says nothing about the code, and it is repeated
+// with a longer one.
 func runOne(op string) string {
+	timeout := 40 * time.Millisecond
+	for attempt := 0; ; attempt++ {
+		res, released := runOnce(op, timeout)
+		if attempt >= 3 || !strings.HasPrefix(res, "timeout") || 2*released < timeout {
+			return res
+		}
+		timeout *= 8
+	}
+}
+
+func runOnce(op string, silentTimeout time.Duration) (string, time.Duration) {
+	res, d := runOnce1(op, silentTimeout)
+	return res, d
+}
+
+func runOnce1(op string, silentTimeout time.Duration) (string, time.Duration) {
 	level, outs, order, ok := parseOp(op)
 	if !ok {
-		return "bad-op"
+		return "bad-op", 0
 	}
 	lv, err := models.ParseConsistencyLevel(level)
 	if err != nil {
-		return "bad-op"
+		return "bad-op", 0
 	}
 	e := &env{localID: 1000}
 	hasSilent := false
@@ -311,19 +331,20 @@ func runOne(op string) string {
 	w.HintedHandoff = handoff{e}
 	w.WriteTimeout = 5 * time.Second
 	if hasSilent {
-		w.WriteTimeout = 40 * time.Millisecond
+		w.WriteTimeout = silentTimeout
 	}
 	w.Open()
 	defer w.Close()
 	pt := models.MustNewPoint("cpu", models.NewTags(map[string]string{"h": "a"}), models.Fields{"v": 1.0}, time.Unix(10, 0))
 	resCh := make(chan error, 1)
+	t0 := time.Now()
 	go func() { resCh <- w.WritePointsPrivileged("db", "rp", lv, []models.Point{pt}) }()
 
 	var result error
 	got := false
 	for _, i := range order {
 		if i < 0 || i >= len(e.owners) {
-			return "bad-op"
+			return "bad-op", 0
 		}
 		close(e.owners[i].gate)
 		select {
@@ -340,19 +361,20 @@ func runOne(op string) string {
 			}
 		}
 	}
+	released := time.Since(t0) // every scripted answer has been released by now
 	if !got {
 		select {
 		case result = <-resCh:
-		case <-time.After(8 * time.Second):
-			return "hang"
+		case <-time.After(8*time.Second + silentTimeout):
+			return "hang", released
 		}
 	}
-	released := map[int]bool{}
+	wasReleased := map[int]bool{}
 	for _, i := range order {
-		released[i] = true
+		wasReleased[i] = true
 	}
 	for i, o := range e.owners {
-		if !released[i] {
+		if !wasReleased[i] {
 			close(o.gate)
 		}
 	}
@@ -371,7 +393,7 @@ func runOne(op string) string {
 		hhok = append(hhok, b01(o.hhAccepted))
 		o.mu.Unlock()
 	}
-	return fmt.Sprintf("%s stored=%s hh=%s hhok=%s", classify(result), strings.Join(st, ","), strings.Join(hh, ","), strings.Join(hhok, ","))
+	return fmt.Sprintf("%s stored=%s hh=%s hhok=%s", classify(result), strings.Join(st, ","), strings.Join(hh, ","), strings.Join(hhok, ",")), released
 }
 
 func b01(b bool) string {
